@@ -13,6 +13,11 @@ line without the other marks each maximal run of opposite-direction letters (wit
 inside) is reversed in place and everything else keeps its place; a shaped character is the
 letter itself or the presentation form of the same letter (Python's unicodedata) that its
 non-diacritic neighbours call for; other characters are never altered.
+The same sentences are evaluated on `rord`, the order array ren_position() itself lays the line out with
+(its own call of dir_reorder, recorded by the probe): a line within linelimit in CHARACTERS (orders 1, 2;
+order 1 only with a multi-byte sequence) must show the reversed runs there, whatever its number of bytes;
+beyond the limit, with order 0 and on single-byte lines with order 1 the array is the identity
+(model: RenOrdDefs.ren_order, theorems C18_linelimit_*).
 """
 import json, unicodedata, glob, os
 import vlib
@@ -411,6 +416,33 @@ def oracle_dir(sp, cs, td, o, cut=0):
     return loose_ok()
 
 
+def oracle_line(sp, cs, opt, o, cut=0):
+    """the property on both observables of a line: `ord` = dir_reorder called directly, `rord` = the order array
+    ren_position() itself used (its own call of dir_reorder; the identity if it made none).  opt = (order, td, lim).
+    The second one is what the screen shows: it must be the reordered line exactly when the line is within
+    linelimit in characters and the order option asks for reordering."""
+    bad = oracle_dir(sp, cs, opt[1], o, cut)
+    if bad:
+        return bad
+    if 'rord' not in o:
+        return ('the probe did not report the order ren_position() uses', 'rord=', sorted(o))
+    n = len(cs)
+    nbytes = len(rc.enc(cs))
+    if str(o['rord']).startswith('CALLS'):
+        return ('ren_position() called dir_reorder more than once (%s)' % o['rord'], 'one call', o['rord'])
+    rord = rc.ilist(o['rord'])
+    where = 'order=%d linelimit=%d, the line has %d characters in %d bytes' % (opt[0], opt[2], n, nbytes)
+    if rc.reorder_expected(cs, opt):
+        b2 = oracle_dir(sp, cs, opt[1], {'ord': o['rord'], 'dctx': o['dctx']}, cut)
+        if b2:
+            return ('the order ren_position() lays the line out with (%s: within the limit, to be reordered) violates the property: %s'
+                    % (where, b2[0]), b2[1], b2[2])
+    elif rord != list(range(n)):
+        why = ('order 0' if opt[0] == 0 else 'more characters than linelimit' if n > opt[2] else 'order 1 and no multi-byte character')
+        return ('ren_position() must lay the line out in logical order (%s: %s), it used %s' % (where, why, rord), list(range(n)), rord)
+    return None
+
+
 def oracle_shape(sp, cs, ans):
     d = rc.parse_obs(ans)
     sh = d['sh'].split(',')[:-1] if d.get('sh') not in (None, True) else []
@@ -575,6 +607,10 @@ def run(ctx):
     if not ctx.replay:
         cases += gen_lines(ctx)
         long_cases += gen_long(ctx)
+        # lines around linelimit in characters and in bytes (shared with C17, which runs them with all column observables);
+        # here as `dir` requests: dctx, dm, ord and rord (the model's column functions cost 0.2 .. 0.6 s on a 16-character line)
+        limit_cases = rc.gen_limit_lines(ctx.rng.fork('limit'), ctx.quick)
+        long_cases += limit_cases
         rng = ctx.rng
         for _ in range(200 if ctx.quick else 3000):
             n = rng.range(1, 10)
@@ -596,7 +632,7 @@ def run(ctx):
             res.violation({'what': 'the implementation crashed or hung: ' + e[:300], 'input': part[:40]})
         else:
             res.disagree({'what': e[:600], 'input': part[:10]})
-    keys = ('dctx', 'dm', 'ord')
+    keys = ('dctx', 'dm', 'ord', 'rord')
     for r, a, b in zip(reqs, obs, mo):
         if a is None or b is None:
             continue
@@ -605,6 +641,7 @@ def run(ctx):
             res.disagree({'what': 'dir_context / dir_match / dir_reorder: model and implementation differ', 'input': [r],
                           'implementation': {k: da.get(k) for k in keys}, 'model': {k: db.get(k) for k in keys},
                           'flags': [f for f in ('ORACLE-MISS', 'FLAG-MISMATCH', 'MATCHER-NOT-OK') if f in db]})
+    lap('dir requests: probe and model')
     vreqs = reqs[:len(cases)]
     sub = vreqs[::2] if ctx.quick else vreqs
     aobs, _m, _q, aerrs = rc.run_ren(probe_asan, None, sub)
@@ -617,6 +654,7 @@ def run(ctx):
                 break
         else:
             res.violation({'what': 'sanitized build reports an error or crashes: ' + e[-1200:], 'input': part[:40]})
+    lap('dir requests: sanitized probe')
     nviol = 0
     for (cs, opt), word, r, a, hd in zip(cases, words, reqs, obs, heads):
         if a is None:
@@ -625,17 +663,24 @@ def run(ctx):
         res.count('valid lines')
         res.count('td=%d' % opt[1])
         cut = int((hd or {}).get('cut', 0))
-        if word == 'dir':
-            res.count('lines with a run around or beyond the depth limit of the regex engine')
+        if word == 'dir' and len(cs) > 240:
+            res.count('lines of more than 240 characters (runs around or beyond the depth limit of the regex engine, lines around the default linelimit)')
         if cut:
             res.count('lines on which the regex engine hit its depth limit (exact run expectation only for runs <= %d characters)' % DEPTH_SAFE)
         if any(c in sp.cr2l or c in (0x5c, 0x24) for c in cs):
             res.nontriv(r)
         if sp.has_marks(cs):
             res.count('lines with marks')
+        nchr, nbyt = len(cs), len(rc.enc(cs))
+        if opt[0] and abs(nchr - opt[2]) <= 1:
+            res.count('lines of linelimit-1..linelimit+1 characters (order 1, 2)')
+        if opt[0] and abs(nbyt - opt[2]) <= 1 and nchr < nbyt:
+            res.count('multi-byte lines of linelimit-1..linelimit+1 bytes (order 1, 2)')
+        if opt[0] and nchr <= opt[2] < nbyt:
+            res.count('lines within linelimit in characters and over it in bytes (order 1, 2): reordered')
         o = rc.parse_obs(a)
         try:
-            bad = oracle_dir(sp, cs, opt[1], o, cut)
+            bad = oracle_line(sp, cs, opt, o, cut)
         except Exception as e:
             bad = ('oracle could not read the answer: %r' % e, None, a[:300])
         if bad:
@@ -649,7 +694,7 @@ def run(ctx):
                 if e2 or o2[0] is None:
                     return None, None
                 d2 = rc.parse_obs(o2[0])
-                return oracle_dir(sp, subcs, opt[1], d2, int((h2[0] or {}).get('cut', 0))), d2
+                return oracle_line(sp, subcs, opt, d2, int((h2[0] or {}).get('cut', 0))), d2
 
             def fails(subcs):
                 try:
@@ -686,7 +731,7 @@ def run(ctx):
                 if nbadspan <= 2:
                     res.disagree({'what': 'a mark matched with an empty or out-of-range span (hypothesis of C18_terminates / C18_runs_reversed)', 'input': [r],
                                   'call': rec, 'spans': m})
-    lap('dir requests: probe, model, sanitized probe, oracle')
+    lap('dir requests: oracle')
     # ---------------- shaping
     shape_cases += [cs for cs, _o in cases[:nshort] if any(c in sp.cr2l or sp.r2l(c) for c in cs)]
     if not ctx.replay:
